@@ -263,8 +263,29 @@ def run_c28(ctx, replay_path=None):
 # ------------------------------------------------------------------------------------------------
 # shared evaluation
 # ------------------------------------------------------------------------------------------------
+def run_pair_parallel(ctx, sessions, proj):
+    """ctx.run_pair with the sessions cut into chunks that run in parallel harness / model
+    processes (sessions are independent: each starts with `reset`)"""
+    import os
+    from concurrent.futures import ThreadPoolExecutor
+    from vlib import core
+    workers = max(1, min(12, (os.cpu_count() or 4) - 2))
+    if len(sessions) < 4 * workers:
+        return ctx.run_pair(sessions, proj)
+    size = (len(sessions) + workers - 1) // workers
+    chunks = [sessions[i:i + size] for i in range(0, len(sessions), size)]
+    with ThreadPoolExecutor(max_workers=2 * len(chunks)) as ex:
+        fi = [ex.submit(ctx.run_impl, c) for c in chunks]
+        fm = [ex.submit(ctx.run_model, c) for c in chunks]
+        impl = [r for f in fi for r in f.result()]
+        model = [r for f in fm for r in f.result()]
+    return impl, model, core.compare_sessions(sessions, impl, model, proj)
+
+
 def evaluate(ctx, res, sessions, proj, monitor, pid, shrink=True):
-    impl, model, dis = ctx.run_pair(sessions, proj)
+    from vlib import core
+    known = {f["key"] for f in core.load_known().get("findings", []) if f.get("property") == pid}
+    impl, model, dis = run_pair_parallel(ctx, sessions, proj)
     for d in dis:
         ops = sessions[d["session"]]
         if len(res.disagreements) < 2:
@@ -285,12 +306,12 @@ def evaluate(ctx, res, sessions, proj, monitor, pid, shrink=True):
         if m:
             k, key, what = m
             small = ops[:k + 1]
-            if shrink and len([f for f in res.failures if f["key"] == key]) == 0:
+            if shrink and key not in known and len([f for f in res.failures if f["key"] == key]) == 0:
                 def fails(cand, key=key):
                     out = ctx.run_impl([cand])[0]
                     mm = None if out["crash"] else monitor(cand, out["out"])
                     return bool(mm) and mm[1] == key
-                small = ctx.shrink(small, fails, budget=120)
+                small = ctx.shrink(small, fails, budget=60)
             res.failures.append({"key": key, "what": what, "ops": small})
     res.samples = [" ; ".join(s[:10]) for s in sessions[-3:]]
     res.extra["_impl"] = impl
@@ -494,6 +515,16 @@ def run_c27(ctx, replay_path=None):
     pats = [0, 1, 2] if ctx.thorough else [ctx.seed % 3]
     step = 1 if ctx.thorough else 3
     cells = 0
+    shapes = [(0x12, 1), (0x08, 9), (0x0c, 6), (0x16, 3), (0x0f, 24), (0x03, 23), (0x0a, 1), (0x0b, 1), (0x06, 1), (0x02, 2),
+              (0x00, 12), (0x01, 8), (0x18, 5), (0x07, 2), (0x0d, 2), (0x11, 3)]
+    if not ctx.thorough:      # the recognised shapes get all three payload patterns in the quick tier as well
+        for cfg in (0, 1):
+            for pat in (0, 1, 2):
+                if pat not in pats:
+                    for opcode, size in shapes:
+                        sessions.append(["reset %d" % cfg, "connect 24 72", "ev", "ev " + table_pdu(opcode, size, pat), "ev", "ev"])
+                        kinds.append(("table", cfg))
+                        cells += 1
     for cfg in (0, 1):
         for pat in pats:
             for opcode in range(256):
@@ -567,12 +598,29 @@ def monitor_c29(ops, outs):
     st = "idle"
     version_seen = False
     early_disconnect = False    # disconnect() was called before the first connection event
+    local_reason = None
     EARLY = "C29:disconnect-before-established:established-never-reported"
     for k, (op, line) in enumerate(zip(ops, outs)):
         f = fields(line)
         if "bad" in f:
             continue
         cbs = cb_list(f)
+        if op.startswith("reset") or (op.startswith("connect") and f.get("r") == "1"):
+            local_reason = None
+        if op.startswith("api disconnect"):
+            w = op.split()
+            local_reason = int(w[2]) if len(w) > 2 else 0x16
+        # "closed with the reason": the central's LL_TERMINATE_IND reason or the one given to disconnect()
+        for c in cbs:
+            if c.startswith("closed:"):
+                ok = set()
+                if local_reason is not None:
+                    ok.add(local_reason)
+                ok |= {int(p[4:6], 16) for p in pdus_of(op) if is_ctrl(p, 0x02, 2)}
+                if ok and int(c[7:], 16) not in ok and c not in ("closed:08", "closed:22"):
+                    return k, "C29:closed-reason", "op %d `%s`: reported %s, expected reason in %s" % (k, op[:60], c, sorted(ok))
+                if not ok and c not in ("closed:08", "closed:22", "closed:28"):
+                    return k, "C29:closed-reason", "op %d `%s`: reported %s without LL_TERMINATE_IND / disconnect()" % (k, op[:60], c)
         if op.startswith("api disconnect") and st == "requested":
             early_disconnect = True
         if st == "idle":
@@ -637,12 +685,16 @@ def gen_c29(rng, length):
             if rng.random() < 0.15:
                 pdus = pdus[:2] + [terminate(rng.choice([0x13, 0x16]))]
             ops.append(("ev " + " ".join(pdus)).strip())
-        elif r < 0.72:
+        elif r < 0.68:
             ops.append("to")
+        elif r < 0.72:
+            ops += ["to"] * 6          # attempt timeout (connecting) / supervision timeout of a (16, 10) connection
         elif r < 0.80:
             ops.append("api disconnect")
         elif r < 0.93:
             ops.append("connect %d %d" % rng.choice([(24, 72), (16, 10)]))
+            if rng.random() < 0.25:
+                ops += ["to"] * 6      # no connection event at all: ll_connection_attempt_timeout
         elif r < 0.96:
             ops.append("ev " + " ".join(rng.choice(simple)() for _ in range(rng.choice([4, 5, 6]))))   # overflow candidates
         else:
@@ -710,17 +762,20 @@ PROPS = {
         assumptions=["peripheral latency 0; buffers never full; no_signaling_channel; no_desired_connection_parameters"],
     ),
     "C29": dict(
-        theorems=["BluetoeModel.LlControl.ring_reports_first_four",
+        theorems=["BluetoeModel.LlControl.callbacks_well_ordered_partial",
+                  "BluetoeModel.LlControl.ring_reports_first_four",
                   "BluetoeModel.LlControl.ring_empty_between_callbacks",
+                  "BluetoeModel.LlControl.dropped_only_when_ring_full",
                   "BluetoeModel.LlControl.ring_pushes"],
         witnesses=["BluetoeModel.LlControl.overflow_drops_witness",
-                   "BluetoeModel.LlControl.callbacks_well_ordered_witness"],
+                   "BluetoeModel.LlControl.callbacks_well_ordered_witness",
+                   "BluetoeModel.LlControl.early_disconnect_witness"],
         imports=["BluetoeModel.LlControl.PropsC29"],
         run=run_c29,
-        level="partial-proof",
-        technique="Lean 4: event ring lemmas + machine checked counterexample to the full statement; differential correspondence of the exact callback sequences + language monitor on the real link layer",
-        level_text="Proved: the event queue is empty between radio callbacks and reports exactly the first four events pushed during one callback (so nothing is lost or reordered when a callback produces at most four). Proved false: the full statement (witness: LL_VERSION_IND, 2 x LL_REJECT_IND, LL_UNKNOWN_RSP, LL_TERMINATE_IND in one event lose `closed`). NOT proved: the simulation invariant `callbacks_well_ordered_partial` (phase of the link layer = state of the language automaton whenever no callback produced more than four events) — it is checked by the monitor on every sampled history instead.",
-        level_note="known finding C29:ring-overflow:*",
+        level="proof",
+        technique="Lean 4 simulation invariant (link layer state = state of the language automaton over all reported + queued callbacks) over every history, with the two violating situations excluded by name and proved violating by witnesses; differential correspondence of the exact callback sequences + language monitor on the real link layer",
+        level_text="Theorem callbacks_well_ordered_partial: for every history of connects, connection events with arbitrary PDU lists, radio timeouts and API calls on both link layer types, if no radio callback produced more than four lifecycle events (try_push never refused) and disconnect() was not called between `requested` and the first connection event, the reported callbacks are a prefix of (requested (attempt_timeout | established other* closed))* and complete (automaton state = link layer state). The full statement is proved false for exactly these two situations (overflow_drops_witness / callbacks_well_ordered_witness: five events in one callback lose `closed`; early_disconnect_witness: requested, closed without established).",
+        level_note="known findings C29:ring-overflow:*, C29:disconnect-before-established:*; the model's event counter / latency restrictions apply",
         design_ref="§5 C29",
         assumptions=["peripheral latency 0; buffers never full"],
     ),
